@@ -641,6 +641,29 @@ class StoreMachine(LoggedMachine):
         self.mode = 'w'
         self.flags.add('saved_from_memory')
 
+    @precondition(lambda self: not self.finished and self.store is not None and self.mode == 'mem' and self.model)
+    @rule()
+    def save_refused(self):
+        """Saving an in-memory store under a name that is taken is refused; the store stays the in-memory store it
+        was (same length, same items, additions that do not fit still refused - the invariant and `add` check that)."""
+        self.op('save_refused')
+        self.ctx.evaluations += 1
+        taken = self.path.with_name('taken_' + self.path.name)
+        taken.write_text('somebody else\'s file')
+        try:
+            self.store.save(taken)
+        except core.PASS_THROUGH:
+            raise
+        except Exception:  # noqa: BLE001  (the refusal)
+            self.flags.add('save_refused')
+            if taken.read_text() != 'somebody else\'s file':
+                self._fail('save_refused.overwrote', 'a refused save changed the file that was in the way')
+            return
+        finally:
+            if taken.is_file() and taken.stat().st_size < 64:
+                taken.unlink()
+        self._fail('save_refused.accepted', 'save() onto an existing file was accepted')
+
     @precondition(lambda self: not self.finished and self.store is not None and self.mode == 'r')
     @rule(data=st.data())
     def add_readonly(self, data, _desc=None):
@@ -927,6 +950,9 @@ def plan_strategy(draw, lookups=False, faults=False):
                {'op': 'read_all', 'order': 'backward'}, {'op': 'oob'}]
         if lookups:
             ops.append({'op': 'lookup_all'})
+        # a refused save before the second burst: the store must still be an in-memory store that refuses what does
+        # not fit (the first burst sees the untouched store)
+        ops.insert(6, {'op': 'save_refused'})
         return {'plan': True, 'with_bulk': True, 'identified': draw(st.booleans()),
                 'sessions': [{'mode': 'mem', 'cache': 1, 'ops': ops}]}
     if template == 'append_evict':
@@ -1071,6 +1097,8 @@ def run_plan(machine_cls, ctx: core.Ctx, plan: dict):
                     StoreMachine.read_out_of_range(m, 3)
                 elif kind == 'sync' and m.mode in ('w', 'a', 'mem'):
                     StoreMachine.sync(m)
+                elif kind == 'save_refused' and m.mode == 'mem' and m.model:
+                    StoreMachine.save_refused(m)
                 elif kind == 'add_readonly' and m.mode == 'r':
                     StoreMachine.add_readonly(m, None, _desc={'n': 3, 'seed': 9, 'name': None, 'flight_id': None, 'extras': (
                         {sc.fs_name(BULK): _bulk_values(9, FILE_SPECIES[:1])} if m.with_bulk else {})})
